@@ -27,4 +27,10 @@ DecVarint(os) ==
   LET g(j) == IF j <= Len(os) THEN os[j] % 128 ELSE 0
       v == Pad(10) \o Concat([q \in 1..10 |-> NatBits(g(11 - q), 7)])
   IN Mk(FALSE, [i \in 1..NL |-> BitsNat(SubSeq(v, 80 - 16 * i + 1, 80 - 16 * (i - 1)))])
+
+\* The two writer back ends.  The growable one always succeeds with the message; the fixed-slice one has `cap` octets:
+\* it succeeds with the same octets iff the message fits, and otherwise must report an error - there is no prefix of a
+\* protobuf message that it could rightly call written (C17: "both back ends ... produce identical bytes").
+\* Replayed by the harness for every capacity 0..48, the middle and the last three (`vzoo proto`).
+SliceWrite(cap, msg) == IF Len(msg) <= cap THEN [ok |-> TRUE, bytes |-> msg] ELSE [ok |-> FALSE, bytes |-> <<>>]
 =============================================================================
